@@ -353,7 +353,7 @@ def trace_op(op):
     return {"merge": "OMerge", "tohead": "OToHead", "clear": "OClear", "unpush": "OUnpush"}[k]
 
 
-TRACE_RESULT = {1: "an operation the model's primitives cannot perform in that state", 2: "the run does not end with only the root open",
+TRACE_RESULT = {4: "an operation puts a list or table node where it must not be, or text into a LIST", 1: "an operation the model's primitives cannot perform in that state", 2: "the run does not end with only the root open",
                 3: "the replayed tree differs from the returned tree"}
 
 
